@@ -414,6 +414,44 @@ def key1(program, out):
                         out.violate("KEY-1", "eq-ignores:%s" % fld, "Link's PartialEq does not compare `%s` of %s operand: records of different %s collapse into one table entry" % (
                             fld, "its left" if par == 1 else "its right", "objects" if fld == "ptr" else "kinds (Forward / Backward / Loopback)"), w)
                         break
+    # eq must tell the three kinds apart, not some coarser classification of them (`kind.is_outgoing()`): evaluate it on
+    # two links to one allocation for every pair of kinds
+    try:
+        from rules_trace import ClosureCache
+        from expr import mk_agg, mk_ref, is_const
+        kinds = [(v["name"], v["idx"]) for v in facts.adts.get("cactusref::link::Kind", {}).get("variants", [])]
+        fe = program.trait_impl_method("core::cmp::PartialEq", LINK, "eq")[0]
+        cc = ClosureCache(program)
+        P0 = ("param", 9)
+        w = {"fn": fe.path, "bb": 0, "via": [], "file": fe.file, "line": fe.line}
+        decided = 0
+        for (na, ia) in kinds:
+            for (nb, ib) in kinds:
+                la = mk_agg("adt", LINK, "Link", 0, [("ptr", P0), ("kind", mk_agg("adt", "cactusref::link::Kind", na, ia, []))])
+                lb = mk_agg("adt", LINK, "Link", 0, [("ptr", P0), ("kind", mk_agg("adt", "cactusref::link::Kind", nb, ib, []))])
+                r = cc.run(("fn", fe.path), params={2: mk_ref(la), 3: mk_ref(lb)})
+                rets = []
+                for x in (r["returns"] if r is not None else []):
+                    # the pointer comparison of a pointer with itself
+                    if x[0] == "call" and x[2].rsplit("::", 1)[-1] in ("eq", "ne") and len(x[3]) == 2 and x[3][0] == x[3][1]:
+                        x = ("const", "1" if x[2].endswith("eq") else "0", None)
+                    if x[0] == "bin" and x[1] in ("Eq", "Ne") and x[2] == x[3]:
+                        x = ("const", "1" if x[1] == "Eq" else "0", None)
+                    if x not in rets:
+                        rets.append(x)
+                if len(rets) != 1 or not is_const(rets[0]):
+                    continue
+                decided += 1
+                says_equal = rets[0][1] == "1"
+                if says_equal != (na == nb):
+                    out.violate("KEY-1", "eq-merges-kinds:%s-%s" % tuple(sorted((na, nb))) if says_equal else "eq-splits-kind:%s" % na,
+                                "Link's PartialEq says that a %s link and a %s link to the same object are %s: %s" % (
+                                    na, nb, "equal" if says_equal else "different",
+                                    "the two records share one table entry, so one kind's count is booked under the other" if says_equal else "one record can be entered twice and is not found again"), w)
+        if kinds and decided == len(kinds) ** 2:
+            out.obl("KEY-1", "eq-by-kind-pairs", ("raw", fe.path, 0, fe.line))     # (an eq that cannot be evaluated loses this anchor)
+    except KeyError:
+        pass
     extra = sorted(fld for (par, fld) in reads.get("hash", ()) if par == 1 and (1, fld) not in reads.get("eq", ()))
     if extra:
         f = program.trait_impl_method("core::hash::Hash", LINK, "hash")[0]
